@@ -14,6 +14,7 @@ import Kopf.Lemmas.C02_Cycle
 import Kopf.Lemmas.C02_Sub
 import Kopf.Lemmas.C02_Deselect
 import Kopf.Lemmas.C02_Namesake
+import Kopf.Lemmas.C02_Reselect
 namespace Kopf.C02
 
 /-- A handler whose success or permanent failure is recorded is never invoked again. -/
@@ -1305,5 +1306,82 @@ theorem namesake_children_inherit_witness :
     (cycle2B cfg (fun _ => true) sub P 320 (fun _ _ => ok)).subInvoked = [("h/b", 1)] ∧
     (cycle2B cfg (fun _ => true) sub P 320 (fun _ _ => ok)).closed = true := by
   refine ⟨by decide, by decide, by decide⟩
+
+/-! ### A FINISHED handler that leaves the selection inside an open cycle and comes back (seed C02f's class)
+
+A labels= / annotations= / field= filter that stops matching and matches again, or an `@on.resume` handler that is left
+out by the in-process memory of finished resuming handlers and selected again after a restart. For the code, the
+class is covered by `finished_persists` (no hypothesis on the selection: the record of an owned handler of the current
+purpose stays as it is whether or not the handler is selected) and hence by `finished_never_invoked_varying` /
+`once_per_cycle_varying`; `finished_kept_while_unselected` states the step on its own. The seeded variant
+(`cycleUnselPurgeVariant`: the purge of the fallen records generalised to the records of the current purpose whose
+handler is not active in the pass) is indistinguishable in ONE pass from the handlers' side
+(`unselected_purge_variant_same_pass`) and forgets such a record (`unselected_purge_variant_forgets`), so the handler is
+invoked again, from scratch, when it is selected again (`unselected_purge_variant_reruns_witness`). -/
+
+/-- The pass in which a finished handler is NOT selected keeps its record exactly as it is (while the cycle stays
+    open): being out of the selection does not make a handler due again later. -/
+theorem finished_kept_while_unselected (cfg : Cfg) (P : Store) (now now1 : Tick) (exec : Id → Nat → Outcome)
+    (hsub : ∀ i ∈ cfg.selected, i ∈ cfg.owned) (hne : NoExtras cfg P)
+    (hr : handlerReasons.contains cfg.reason = true)
+    (j : Id) (r : Rec) (ho : j ∈ cfg.owned) (_hns : j ∉ cfg.selected) (hP : P j = some r) (hfin : r.finished = true)
+    (hc : (cycle cfg P now now1 exec).closed = false) :
+    (cycle cfg P now now1 exec).P' j = some r ∧ ∀ n, (j, n) ∉ (cycle cfg P now now1 exec).invoked :=
+  ⟨finished_persists cfg P now now1 exec hsub hne j r ho hP hfin hr hc,
+   fun n => no_rerun cfg P now now1 exec hsub j n r hP hfin⟩
+
+/-- ONE pass of the seeded variant invokes the same handlers with the same `retry` and takes the same closing decision
+    as the code's pass: no single-pass observation of the handlers tells them apart. -/
+theorem unselected_purge_variant_same_pass (cfg : Cfg) (P : Store) (now now1 : Tick) (exec : Id → Nat → Outcome) :
+    (cycleUnselPurgeVariant cfg P now now1 exec).invoked = (cycle cfg P now now1 exec).invoked ∧
+    (cycleUnselPurgeVariant cfg P now now1 exec).closed = (cycle cfg P now now1 exec).closed :=
+  unselVariant_same_pass cfg P now now1 exec
+
+/-- … but it FORGETS: the record (finished or not) of an owned handler of the current purpose that is not selected in
+    a pass that leaves the cycle open is removed from the object — for every selection, script, lifecycle and clock. -/
+theorem unselected_purge_variant_forgets (cfg : Cfg) (P : Store) (now now1 : Tick) (exec : Id → Nat → Outcome)
+    (hr : handlerReasons.contains cfg.reason = true) (hsel : cfg.selected.isEmpty = false)
+    (j : Id) (r : Rec) (ho : j ∈ cfg.owned) (hns : j ∉ cfg.selected) (hP : P j = some r)
+    (hp : r.purpose = some cfg.reason)
+    (hc : (cycleUnselPurgeVariant cfg P now now1 exec).closed = false) :
+    (cycleUnselPurgeVariant cfg P now now1 exec).P' j = none :=
+  unselVariant_forgets cfg P now now1 exec hr hsel j r ho hns hP hp hc
+
+-- non-vacuity of the two statements above on the seed's second pass: `g` recorded as a success of this creation, only
+-- `s` selected (and failing temporarily): the code keeps `g`'s record, the variant drops it, the cycle stays open
+example :
+    let recG : Rec := { started := 0, delayed := none, purpose := some "create", retries := 1, success := true,
+                        failure := false, subrefs := [] }
+    let P : Store := fun i => if i = "g" then some recG else none
+    let cfg : Cfg := cfgS ["g", "s"] "create"
+      { now := 64, now1 := 64, exec := reselExec okOutcome, selected := ["s"], lifecycle := .allAtOnce }
+    NoExtras cfg P ∧ (cycle cfg P 64 64 (reselExec okOutcome)).closed = false ∧
+    (cycle cfg P 64 64 (reselExec okOutcome)).P' "g" = some recG ∧
+    (cycleUnselPurgeVariant cfg P 64 64 (reselExec okOutcome)).closed = false ∧
+    (cycleUnselPurgeVariant cfg P 64 64 (reselExec okOutcome)).P' "g" = none := by
+  refine ⟨?_, by decide, by decide, by decide, by decide⟩
+  intro i _ r h
+  simp only at h
+  split at h
+  · cases h; exact Or.inr rfl
+  · cases h
+
+/-- WITNESS that the seeded change C02f violates "a handler whose success or permanent failure is recorded on the
+    object is never invoked again within one handling cycle", on the seed's own histories (three passes of one open
+    creation cycle: `g` and `s` selected — `g` ends for good and is recorded, `s` fails temporarily; only `s` selected —
+    the label was flipped away, or `g` is a finished resuming handler left out by the in-process memory; both selected
+    again — the label is back / the operator was restarted). The code never invokes `g` again; the variant invokes it
+    again with retry 0 — after a success (all-at-once) as well as after a permanent failure (asap: ahead of its
+    sibling, having "no attempts"). Replayed on the real operator: corpus/C02/reselect_*.json. -/
+theorem unselected_purge_variant_reruns_witness :
+    codeSeq ["g", "s"] "create" (fun _ => none) (reselSteps okOutcome .allAtOnce)
+      = [[("g", 0), ("s", 0)], [("s", 1)], [("s", 2)]] ∧
+    variantSeq ["g", "s"] "create" (fun _ => none) (reselSteps okOutcome .allAtOnce)
+      = [[("g", 0), ("s", 0)], [("s", 1)], [("g", 0), ("s", 2)]] ∧
+    codeSeq ["g", "s"] "create" (fun _ => none) (reselSteps permOutcome .asap)
+      = [[("g", 0)], [("s", 0)], [("s", 1)]] ∧
+    variantSeq ["g", "s"] "create" (fun _ => none) (reselSteps permOutcome .asap)
+      = [[("g", 0)], [("s", 0)], [("g", 0)]] := by
+  refine ⟨by decide, by decide, by decide, by decide⟩
 
 end Kopf.C02
